@@ -10,12 +10,14 @@
     state for thread 0, a branch of the last committed version / of the check state for the
     others) and possibly its own StateDB (cached balances with dirty flags).
 
-    [mode]: [Shared] is the code as it is (every bank operation mirrors unibi balances into
+    [mode]: [Shared] is the code before fix 509f604 (every bank operation mirrors unibi balances into
     whatever StateDB the shared pointer designates; EthereumTx reuses a published StateDB, else
     creates and publishes one, and clears the pointer on return).  [Isolated] is the sub-model in
     which the steps of request threads (ids <> 0) never dereference, publish or clear the pointer
-    (they mirror into the StateDB they use themselves) — the behaviour of a repaired design that
-    carries the StateDB in the sdk.Context. *)
+    (they mirror into the StateDB they use themselves, which block execution cannot tell from not
+    mirroring at all) — the code since the fix, in which every access to the pointer is guarded by
+    ctx.IsCheckTx().  Which mode the current tree is compared with is decided by generated facts
+    (Sites.mode_of over Gen/C09Facts.v). *)
 From Coq Require Import List Bool Arith ZArith.
 Import ListNotations.
 Local Open Scope Z_scope.
